@@ -10,7 +10,7 @@ tvars == <<def, env, line, st, l, bad>>
 Conforms(exp, got) ==
   /\ exp.class = got.class
   /\ exp.class = "ok" => ToJson(exp.value) = got.vjson
-  /\ exp.class = "stdout" => exp.kind = got.kind
+  /\ exp.class = "stdout" => (exp.kind = got.kind /\ (exp.kind = "help" => ToJson(exp.path) = got.pjson))
 TInit == /\ l = 1 /\ bad = 0 /\ def = DefSeq[1] /\ env = <<>> /\ line = <<>> /\ st = GInitSt(DefSeq[1])
 TNext == /\ l <= Len(Rec)
          /\ LET r == Rec[l]  d == DefById(r.def)  s == GRun(d, GInitSt(d), r.line)  o == GOutcome(d, s, <<>>) IN
